@@ -773,6 +773,14 @@ Proof.
   cbn [forallb]. rewrite andb_true_r. rewrite (leaf_text_is_leaf i content0 ncs H2). reflexivity.
 Qed.
 
+Lemma snoc_merge_has cs tn : In (rid tn) (ids_l (snoc_merge cs tn)).
+Proof.
+  destruct (rev_cases cs) as [->|(l & x & ->)]; [simpl; rewrite app_nil_r; apply rid_in_ids|].
+  rewrite snoc_merge_app, ids_l_app. apply in_or_app. right.
+  destruct x as [m dm mk]. destruct tn as [i di ncs].
+  cbn [rid]. destruct dm; try (in_norm; tauto). destruct di; in_norm; tauto.
+Qed.
+
 Lemma nodup_mid {A} (X Y Z : list A) :
   NoDup (X ++ Y ++ Z) -> NoDup (X ++ Z) /\ NoDup Y /\ (forall a, In a Y -> ~ In a (X ++ Z)).
 Proof.
@@ -808,7 +816,10 @@ Lemma add_node_forest fuel t F1 tn F2 p sub :
   Links (heap_of t) (F1 ++ tn :: F2) -> find_l p (F1 ++ F2) = Some sub -> is_text (rdata sub) = false ->
   (length (rkids sub) < fuel)%nat ->
   exists h', add_node fuel t (Some p) (rid tn) = TOk (with_heap t h') /\
-     Links h' (replace_l p (R p (rdata sub) (snoc_merge (rkids sub) tn)) (F1 ++ F2)).
+     Links h' (replace_l p (R p (rdata sub) (snoc_merge (rkids sub) tn)) (F1 ++ F2)) /\
+     (forall i, In i (ids_l (replace_l p (R p (rdata sub) (snoc_merge (rkids sub) tn)) (F1 ++ F2))) ->
+                In i (ids_l (F1 ++ tn :: F2))) /\
+     In (rid tn) (ids_l (replace_l p (R p (rdata sub) (snoc_merge (rkids sub) tn)) (F1 ++ F2))).
 Proof.
   intros (HF & HN & HC & HL) Hfind Htext Hfuel.
   apply Forall_app in HF as [HF1 HF2]. apply Forall_cons_iff in HF2 as [Htn HF2].
@@ -829,7 +840,7 @@ Proof.
     | exact Hleaf | exact HLn | exact Hfuel |].
   exists h'. split; [exact Hrun|].
   assert (Hp : heap_of t p = Some (mkN d par (head_id cs) nxt prev)) by (apply rep_t_unfold in Hsub; tauto).
-  split; [|split; [|split]].
+  split; [split; [|split; [|split]] | split].
   - apply rep_replace_forest with (h := heap_of t); [reflexivity | | exact HF12 | exact N12 |].
     + intros par' prev' nxt' d' c' E. rewrite Hp in E. injection E as <- <- <- <- <-. exact Hpost.
     + intros j Hj Hs. rewrite ES in Hs. apply Hframe; [exact Hs|]. intros ->. apply (Ndis n); [simpl; auto | exact Hj].
@@ -847,6 +858,16 @@ Proof.
     + apply in_or_app. destruct Hin; [auto | right; apply in_or_app; auto].
   - refine (proj2 (leaf_replace p _ _) _ HL12). rewrite leaf_text_unfold, Htext. cbn [negb orb andb].
     apply leaf_snoc_merge; assumption.
+  - intros i. rewrite EB, ids_l_mid. intros Hi.
+    assert (In i (ids (R p d (snoc_merge cs (R n dn ncs)))) \/ In i A \/ In i B) as [Hin|Hin]
+      by (clear - Hi; repeat rewrite in_app_iff in *; tauto).
+    + apply Hincl in Hin. apply in_app_or in Hin as [Hin|Hin].
+      * apply Hsubin in Hin. rewrite ids_l_app in Hin. clear - Hin. in_norm. tauto.
+      * clear - Hin. in_norm. tauto.
+    + assert (Hin' : In i (ids_l (F1 ++ F2))) by (rewrite EA; clear - Hin; repeat rewrite in_app_iff; tauto).
+      rewrite ids_l_app in Hin'. clear - Hin'. in_norm. tauto.
+  - rewrite EB. apply in_or_app. right. apply in_or_app. left. rewrite ids_unfold. right.
+    exact (snoc_merge_has cs (R n dn ncs)).
 Qed.
 
 (* ------------------------------------------------------------------ *)
@@ -1133,7 +1154,8 @@ Lemma extract_forest t F x :
   Links (heap_of t) F -> In x (ids_l F) -> ~ In x (map rid F) ->
   exists h' q dq ls tx rs, extract_node t x = TOk (mkT h' (root t) (cur_page t) (fresh t)) /\
      find_l q F = Some (R q dq (ls ++ tx :: rs)) /\ rid tx = x /\
-     Links h' (replace_l q (R q dq (ls ++ rs)) F ++ [tx]).
+     Links h' (replace_l q (R q dq (ls ++ rs)) F ++ [tx]) /\
+     (forall i, In i (ids_l (replace_l q (R q dq (ls ++ rs)) F ++ [tx])) -> In i (ids_l F)).
 Proof.
   intros (HF & HN & HC & HL) Hin Hnr.
   destruct (proj2 (find_parent x) F HN Hin) as [(ls & tx & rs & E & Hr)|(q & dq & ls & tx & rs & Hfind & Hr)].
@@ -1149,7 +1171,7 @@ Proof.
   assert (HLs : leaf_text (R q dq (ls ++ R x dx xcs :: rs)) = true) by (eapply (proj2 (find_leaf q)); eauto).
   rewrite leaf_text_unfold, forallb_app' in HLs. cbn [forallb] in HLs.
   apply andb_prop in HLs as [HL0 HLs]. apply andb_prop in HLs as [HLl HLs]. apply andb_prop in HLs as [HLx HLr].
-  split; [|split; [|split]].
+  split; [split; [|split; [|split]] | ].
   - apply Forall_app. split; [|constructor; [exact R2 | constructor]].
     apply rep_replace_forest with (h := heap_of t); [reflexivity | | exact HF | exact HN |].
     + intros par' prev' nxt' d' c' E. rewrite Hq in E. injection E as <- <- <- <- <-. exact R1.
@@ -1169,4 +1191,668 @@ Proof.
   - rewrite forallb_app'. cbn [forallb]. rewrite HLx. cbn [andb]. rewrite andb_true_r.
     refine (proj2 (leaf_replace q _ _) _ HL). rewrite leaf_text_unfold, forallb_app', HLl, HLr. cbn [andb]. rewrite andb_true_r.
     destruct (is_text dq); [|reflexivity]. cbn [negb orb] in HL0. destruct ls; discriminate.
+  - intros i. rewrite ids_l_app, ids_l_single, EB, EA. intros Hi. clear - Hi. in_norm. tauto.
+Qed.
+
+(* ------------------------------------------------------------------ *)
+(* wbxml_tree_node_destroy_all: the iterative walk                      *)
+
+Definition wstate := (heap * option id * option id * list id)%type.
+
+Fixpoint steps (k : nat) (pn : option id) (s : wstate) : tres (wstate + (heap * list id)) :=
+  match k with
+  | O => TOk (inl s)
+  | S k' => do r <- walk_step pn s; match r with inl s' => steps k' pn s' | inr e => TOk (inr e) end
+  end.
+
+Lemma steps_trans pn : forall k1 k2 s s1 r,
+  steps k1 pn s = TOk (inl s1) -> steps k2 pn s1 = r -> steps (k1 + k2) pn s = r.
+Proof.
+  induction k1 as [|k1 IH]; intros k2 s s1 r H1 H2.
+  - simpl in H1. injection H1 as <-. exact H2.
+  - simpl in *. destruct (walk_step pn s) as [[s'|e]| |]; simpl in *; try discriminate. eapply IH; eauto.
+Qed.
+
+Lemma walk_loop_steps pn : forall k f s s1,
+  steps k pn s = TOk (inl s1) -> walk_loop (k + f) pn s = walk_loop f pn s1.
+Proof.
+  induction k as [|k IH]; intros f s s1 H.
+  - simpl in H. injection H as <-. reflexivity.
+  - simpl in *. destruct (walk_step pn s) as [[s'|e]| |]; simpl in *; try discriminate. apply IH. exact H.
+Qed.
+
+Definition hminus (h : heap) (l : list id) : heap := fun i => if mem i l then None else h i.
+
+Lemma mem_in x l : mem x l = true <-> In x l.
+Proof.
+  unfold mem. rewrite existsb_exists. split.
+  - intros (y & Hy & E). apply N.eqb_eq in E. subst. exact Hy.
+  - intros H. exists x. split; [exact H | apply N.eqb_refl].
+Qed.
+
+Lemma mem_false x l : mem x l = false <-> ~ In x l.
+Proof. rewrite <- mem_in. destruct (mem x l); split; congruence. Qed.
+
+Lemma oeqb_eq a b : oeqb a b = true <-> a = b.
+Proof.
+  destruct a, b; simpl; try (split; congruence). rewrite N.eqb_eq. split; congruence.
+Qed.
+
+Lemma size_pos t : (1 <= size t)%nat.
+Proof. destruct t. simpl. lia. Qed.
+
+Lemma size_l_cons t ts : size_l (t :: ts) = (size t + size_l ts)%nat.
+Proof. reflexivity. Qed.
+
+Lemma size_unfold i d cs : size (R i d cs) = S (size_l cs).
+Proof. reflexivity. Qed.
+
+Definition postorder_l (ts : list rt) : list id := flat_map postorder ts.
+
+Lemma postorder_unfold i d cs : postorder (R i d cs) = postorder_l cs ++ [i].
+Proof. reflexivity. Qed.
+
+Lemma walk_trees pn :
+  (forall t h par prev nxt pv rel, rep_t h par prev nxt t -> par <> pn -> (forall y, In y (ids t) -> Some y <> pn) ->
+     NoDup (ids t) ->
+     exists h', steps (2 * size t) pn (h, Some (rid t), pv, rel) = TOk (inl (h', nxt, par, rev (postorder t) ++ rel)) /\
+                (forall i, h' i = hminus h (ids t) i)) /\
+  (forall ts h par prev rel, rep_l h par prev None ts -> par <> pn -> (forall y, In y (ids_l ts) -> Some y <> pn) ->
+     NoDup (ids_l ts) ->
+     exists h', steps (2 * size_l ts) pn (h, head_id ts, par, rel) = TOk (inl (h', None, par, rev (postorder_l ts) ++ rel)) /\
+                (forall i, h' i = hminus h (ids_l ts) i)).
+Proof.
+  apply rt_mut_ind.
+  - intros i d cs IH h par prev nxt pv rel Hr Hpar Hdesc Hnd.
+    apply rep_t_unfold in Hr as [H1 H2]. rewrite ids_unfold in Hnd. apply NoDup_cons_iff in Hnd as [Hni Hnd].
+    destruct (IH h (Some i) None rel H2) as (h1 & S1 & E1); [apply Hdesc; simpl; auto | intros y Hy; apply Hdesc; simpl; auto | exact Hnd |].
+    exists (upd h1 i None). split.
+    + rewrite size_unfold. replace (2 * S (size_l cs))%nat with (1 + (2 * size_l cs + 1))%nat by lia.
+      eapply steps_trans.
+      * cbn [steps walk_step rid]. rewrite (get_some _ _ _ H1). cbn [bind n_children]. reflexivity.
+      * eapply steps_trans; [exact S1|].
+        cbn [steps walk_step]. assert (G : h1 i = Some (mkN d par (head_id cs) nxt prev)).
+        { rewrite E1. unfold hminus. rewrite (proj2 (mem_false i (ids_l cs)) Hni). exact H1. }
+        rewrite (get_some _ _ _ G). cbn [bind n_parent n_next].
+        destruct (oeqb par pn) eqn:Eo; [apply oeqb_eq in Eo; contradiction|].
+        rewrite postorder_unfold, rev_app_distr. reflexivity.
+    + intros j. unfold upd, hminus, free_node. rewrite ids_unfold. cbn [mem existsb]. fold (mem j (ids_l cs)).
+      destruct (N.eqb_spec j i) as [->|Hne]; [reflexivity|]. rewrite E1. unfold hminus. cbn [orb]. reflexivity.
+  - intros h par prev rel _ _ _ _. exists h. split; [reflexivity|]. intros i. reflexivity.
+  - intros t ts IHt IHts h par prev rel Hr Hpar Hdesc Hnd.
+    apply rep_l_cons in Hr as [Ha Hb]. rewrite ids_l_cons in Hnd. apply NoDup_app_iff in Hnd as (N1 & N2 & N3).
+    destruct (IHt h par prev (head_or None ts) par rel Ha Hpar) as (h1 & S1 & E1);
+      [intros y Hy; apply Hdesc; rewrite ids_l_cons; apply in_or_app; auto | exact N1 |].
+    assert (Hb1 : rep_l h1 par (Some (rid t)) None ts).
+    { eapply rep_l_frame; [|exact Hb]. intros j Hj. rewrite E1. unfold hminus.
+      rewrite (proj2 (mem_false j (ids t))); [reflexivity|]. intros Hj'. exact (N3 j Hj' Hj). }
+    destruct (IHts h1 par (Some (rid t)) (rev (postorder t) ++ rel) Hb1 Hpar) as (h2 & S2 & E2);
+      [intros y Hy; apply Hdesc; rewrite ids_l_cons; apply in_or_app; auto | exact N2 |].
+    exists h2. split.
+    + rewrite size_l_cons. replace (2 * (size t + size_l ts))%nat with (2 * size t + 2 * size_l ts)%nat by lia.
+      eapply steps_trans; [exact S1|]. rewrite head_or_None. rewrite S2.
+      unfold postorder_l. cbn [flat_map]. rewrite rev_app_distr, <- app_assoc. reflexivity.
+    + intros j. rewrite E2. unfold hminus. rewrite E1. unfold hminus. rewrite ids_l_cons.
+      assert (M : mem j (ids t ++ ids_l ts) = mem j (ids_l ts) || mem j (ids t)) by (unfold mem; rewrite existsb_app; apply orb_comm).
+      rewrite M. destruct (mem j (ids_l ts)), (mem j (ids t)); reflexivity.
+Qed.
+
+Lemma destroy_all_spec fuel h tn par prev nxt :
+  rep_t h par prev nxt tn -> NoDup (ids tn) -> (forall y, In y (ids tn) -> Some y <> par) ->
+  (2 * size tn <= fuel)%nat ->
+  exists h', destroy_all fuel h (rid tn) = TOk (h', rev (postorder tn)) /\ (forall i, h' i = hminus h (ids tn) i).
+Proof.
+  destruct tn as [n d cs]. intros Hr Hnd Hdesc Hfuel. pose proof Hr as Hr0.
+  apply rep_t_unfold in Hr as [H1 H2]. rewrite ids_unfold in Hnd. apply NoDup_cons_iff in Hnd as [Hni Hnd].
+  destruct (proj2 (walk_trees par) cs h (Some n) None [] H2) as (h1 & S1 & E1);
+    [apply Hdesc; simpl; auto | intros y Hy; apply Hdesc; simpl; auto | exact Hnd |].
+  assert (G : h1 n = Some (mkN d par (head_id cs) nxt prev)).
+  { rewrite E1. unfold hminus. rewrite (proj2 (mem_false n (ids_l cs)) Hni). exact H1. }
+  exists (upd h1 n None). split.
+  - unfold destroy_all. cbn [rid]. rewrite (get_some _ _ _ H1). cbn [bind n_parent].
+    rewrite size_unfold in Hfuel.
+    replace fuel with ((1 + 2 * size_l cs) + S (fuel - 2 * size_l cs - 2))%nat by lia.
+    rewrite (walk_loop_steps par (1 + 2 * size_l cs) _ _ (h1, None, Some n, rev (postorder_l cs) ++ [])).
+    + cbn [walk_loop walk_step]. rewrite (get_some _ _ _ G). cbn [bind n_parent].
+      rewrite (proj2 (oeqb_eq par par) eq_refl). cbn [bind]. rewrite (get_some _ _ _ G). cbn [bind].
+      rewrite app_nil_r, postorder_unfold, rev_app_distr. reflexivity.
+    + eapply steps_trans; [|exact S1]. cbn [steps walk_step]. rewrite (get_some _ _ _ H1). reflexivity.
+  - intros j. unfold upd, hminus. rewrite ids_unfold. cbn [mem existsb]. fold (mem j (ids_l cs)).
+    destruct (N.eqb_spec j n) as [->|Hne]; [reflexivity|]. rewrite E1. unfold hminus. reflexivity.
+Qed.
+
+Lemma postorder_perm : (forall t, Permutation (postorder t) (ids t)) /\ (forall ts, Permutation (postorder_l ts) (ids_l ts)).
+Proof.
+  apply rt_mut_ind.
+  - intros i d cs IH. rewrite postorder_unfold, ids_unfold. rewrite <- Permutation_cons_append. constructor. exact IH.
+  - constructor.
+  - intros t ts IHt IHts. unfold postorder_l. cbn [flat_map]. rewrite ids_l_cons. apply Permutation_app; assumption.
+Qed.
+
+(* destroying a detached sub-tree of the forest *)
+Lemma destroy_forest fuel h F1 tn F2 :
+  Links h (F1 ++ tn :: F2) -> (2 * size tn <= fuel)%nat ->
+  exists h', destroy_all fuel h (rid tn) = TOk (h', rev (postorder tn)) /\ Links h' (F1 ++ F2) /\
+             (forall i, h' i = hminus h (ids tn) i).
+Proof.
+  intros (HF & HN & HC & HL) Hfuel.
+  apply Forall_app in HF as [HF1 HF2]. apply Forall_cons_iff in HF2 as [Htn HF2].
+  rewrite ids_l_mid in HN. destruct (nodup_mid _ _ _ HN) as (N12 & Ntn & Ndis). rewrite <- ids_l_app in N12, Ndis.
+  destruct (destroy_all_spec fuel h tn None None None Htn Ntn) as (h' & Hrun & E); [discriminate | exact Hfuel |].
+  exists h'. split; [exact Hrun|]. split; [|exact E].
+  assert (Fr : forall j, In j (ids_l (F1 ++ F2)) -> h' j = h j).
+  { intros j Hj. rewrite E. unfold hminus. rewrite (proj2 (mem_false j (ids tn))); [reflexivity|].
+    intros Hj'. exact (Ndis j Hj' Hj). }
+  assert (HF12 : Forall (rep_t h None None None) (F1 ++ F2)) by (apply Forall_app; auto).
+  split; [|split; [exact N12|split]].
+  - rewrite Forall_forall in *. intros t Ht. eapply rep_frame; [|exact (HF12 t Ht)].
+    intros j Hj. apply Fr. eapply in_ids_l; eauto.
+  - intros i Hi. rewrite E in Hi. unfold hminus in Hi. destruct (mem i (ids tn)) eqn:M; [congruence|].
+    apply mem_false in M. specialize (HC i Hi). rewrite ids_l_mid in HC. rewrite ids_l_app. clear - HC M. in_norm. tauto.
+  - rewrite forallb_app' in *. cbn [forallb] in HL. apply andb_prop in HL as [L1 L2]. apply andb_prop in L2 as [_ L2].
+    rewrite L1, L2. reflexivity.
+Qed.
+
+(* ------------------------------------------------------------------ *)
+(* the abstraction function and the encoder's walk                      *)
+
+Lemma abs_list_none fuel h : abs_list fuel h None = [].
+Proof. destruct fuel; reflexivity. Qed.
+
+Lemma abs_rep h : forall fuel ts par prev, rep_l h par prev None ts -> (size_l ts <= fuel)%nat ->
+  abs_list fuel h (head_id ts) = ts.
+Proof.
+  induction fuel as [|f IH]; intros ts par prev Hr Hs.
+  - destruct ts as [|t ts]; [reflexivity|]. rewrite size_l_cons in Hs. pose proof (size_pos t). lia.
+  - destruct ts as [|[c d cs] rest]; [reflexivity|].
+    apply rep_l_cons in Hr as [Ha Hb]. apply rep_t_unfold in Ha as [Ha Hc].
+    rewrite size_l_cons, size_unfold in Hs.
+    cbn [head_id rid abs_list]. rewrite Ha. cbn [n_data n_children n_next].
+    rewrite (IH cs (Some c) None Hc) by lia. fold (head_id rest).
+    rewrite (IH rest par (Some c) Hb) by lia. reflexivity.
+Qed.
+
+Lemma enc_walk_rep h : forall fuel ts par prev, rep_l h par prev None ts -> (size_l ts < fuel)%nat ->
+  enc_walk fuel h (head_id ts) = TOk (flat_map events (map erase ts)).
+Proof.
+  induction fuel as [|f IH]; intros ts par prev Hr Hs; [lia|].
+  destruct ts as [|[c d cs] rest]; [reflexivity|].
+  apply rep_l_cons in Hr as [Ha Hb]. apply rep_t_unfold in Ha as [Ha Hc].
+  rewrite size_l_cons, size_unfold in Hs.
+  cbn [head_id rid enc_walk]. rewrite (get_some _ _ _ Ha). cbn [bind n_data n_children n_next].
+  rewrite (IH cs (Some c) None Hc) by lia. cbn [bind]. fold (head_id rest).
+  rewrite (IH rest par (Some c) Hb) by lia. cbn [bind map flat_map erase events].
+  assert (E : match head_id cs with Some _ => true | None => false end =
+              match map erase cs with [] => false | _ :: _ => true end) by (destruct cs; reflexivity).
+  rewrite E. cbn [app]. rewrite <- app_assoc. reflexivity.
+Qed.
+
+(* ------------------------------------------------------------------ *)
+(* more forest-level facts                                              *)
+
+Lemma Links_perm h F F' : Permutation F F' -> Links h F -> Links h F'.
+Proof.
+  intros P (H1 & H2 & H3 & H4).
+  assert (PI : Permutation (ids_l F) (ids_l F')) by (apply Permutation_flat_map; exact P).
+  split; [|split; [|split]].
+  - eapply Permutation_Forall; eauto.
+  - eapply Permutation_NoDup; eauto.
+  - intros i Hi. eapply Permutation_in; eauto.
+  - apply forallb_forall. intros t Ht. rewrite forallb_forall in H4. apply H4. eapply Permutation_in; [symmetry; exact P | exact Ht].
+Qed.
+
+Lemma links_lookup h F n : Links h F -> In n (ids_l F) ->
+  exists s par prev nxt, find_l n F = Some s /\ rid s = n /\
+    h n = Some (mkN (rdata s) par (head_id (rkids s)) nxt prev).
+Proof.
+  intros (HF & _) Hin. destruct (proj2 (find_in n) F Hin) as (s & Hs).
+  destruct (find_rep_forest _ _ _ _ HF Hs) as (par & prev & nxt & Hr).
+  destruct (proj2 (find_some n) _ _ Hs) as (Hrid & _).
+  exists s, par, prev, nxt. split; [exact Hs|]. split; [exact Hrid|].
+  destruct s as [i d cs]. cbn [rid] in Hrid. subst i. apply rep_t_unfold in Hr. tauto.
+Qed.
+
+Lemma size_ids : (forall t, size t = length (ids t)) /\ (forall ts, size_l ts = length (ids_l ts)).
+Proof.
+  apply rt_mut_ind.
+  - intros i d cs IH. rewrite size_unfold, ids_unfold. simpl. rewrite IH. reflexivity.
+  - reflexivity.
+  - intros t ts IHt IHts. rewrite size_l_cons, ids_l_cons, app_length. lia.
+Qed.
+
+Lemma length_le_size_l ts : (length ts <= size_l ts)%nat.
+Proof. induction ts as [|t ts IH]; [simpl; lia|]. rewrite size_l_cons. pose proof (size_pos t). simpl. lia. Qed.
+
+Lemma bounded_nodup_length (l : list N) (b : N) : NoDup l -> (forall x, In x l -> x < b) -> (length l <= N.to_nat b)%nat.
+Proof.
+  intros Hnd Hb. rewrite <- (seq_length (N.to_nat b) 0), <- (map_length N.of_nat).
+  apply NoDup_incl_length; [exact Hnd|]. intros x Hx. apply in_map_iff. exists (N.to_nat x).
+  split; [apply Nnat.N2Nat.id|]. apply in_seq. specialize (Hb x Hx). lia.
+Qed.
+
+Lemma incl_length_nodup (l l' : list N) : NoDup l -> incl l l' -> (length l <= length l')%nat.
+Proof. apply NoDup_incl_length. Qed.
+
+Lemma map_rid_replace p new F : rid new = p -> map rid (replace_l p new F) = map rid F.
+Proof.
+  intros H. unfold replace_l. rewrite map_map. apply map_ext. intros t. apply rid_replace. exact H.
+Qed.
+
+Lemma nodup_rids F : NoDup (ids_l F) -> NoDup (map rid F).
+Proof.
+  induction F as [|t F IH]; [constructor|]. rewrite ids_l_cons, NoDup_app_iff. intros (H1 & H2 & H3).
+  cbn [map]. constructor; [|apply IH; exact H2].
+  intros Hin. apply in_map_iff in Hin as (t' & E & Ht'). apply (H3 (rid t) (rid_in_ids t)).
+  rewrite <- E. eapply in_ids_l; [exact Ht' | apply rid_in_ids].
+Qed.
+
+Lemma remove_id_notin x l : ~ In x l -> remove_id x l = l.
+Proof.
+  unfold remove_id. induction l as [|a l IH]; [reflexivity|]. intros H. simpl.
+  destruct (N.eqb_spec a x) as [->|Hne]; [exfalso; apply H; simpl; auto|]. cbn [negb]. rewrite IH; [reflexivity|].
+  intro; apply H; simpl; auto.
+Qed.
+
+Lemma remove_id_mid x l1 l2 : NoDup (l1 ++ x :: l2) -> remove_id x (l1 ++ x :: l2) = l1 ++ l2.
+Proof.
+  intros Hnd. apply NoDup_remove in Hnd as [_ Hni].
+  assert (E : remove_id x (l1 ++ x :: l2) = remove_id x l1 ++ remove_id x l2).
+  { unfold remove_id. rewrite filter_app. cbn [filter]. rewrite N.eqb_refl. reflexivity. }
+  rewrite E, !remove_id_notin; [reflexivity | |]; intro; apply Hni; apply in_or_app; auto.
+Qed.
+
+Lemma split_by_rid F n : In n (map rid F) -> exists F1 tn F2, F = F1 ++ tn :: F2 /\ rid tn = n.
+Proof.
+  intros H. apply in_map_iff in H as (tn & E & Hin). apply in_split in Hin as (F1 & F2 & ->). eauto.
+Qed.
+
+
+(* ------------------------------------------------------------------ *)
+(* the invariant of a caller state and its preservation                 *)
+
+Definition roots (t : tstate) (det : list id) : list id := match root t with Some r => [r] | None => [] end ++ det.
+
+Definition Inv (t : tstate) (det : list id) (F : list rt) : Prop :=
+  Links (heap_of t) F /\ map rid F = roots t det /\ (forall i, In i (ids_l F) -> i < fresh t).
+
+Lemma inv_sizes t det F : Inv t det F ->
+  (forall p sub, find_l p F = Some sub -> (size sub <= N.to_nat (fresh t))%nat) /\
+  (forall tn, In tn F -> (size tn <= N.to_nat (fresh t))%nat).
+Proof.
+  intros ((HF & HN & HC & HL) & _ & Hb).
+  assert (Hlen : (length (ids_l F) <= N.to_nat (fresh t))%nat) by (apply bounded_nodup_length; assumption).
+  split.
+  - intros p sub Hfind. rewrite (proj1 size_ids).
+    destruct (proj2 (ids_replace_split p sub) _ _ Hfind HN) as (A & B & EA & _ & _).
+    rewrite EA, !app_length in Hlen. lia.
+  - intros tn Hin. rewrite (proj1 size_ids). apply in_split in Hin as (F1 & F2 & ->).
+    rewrite ids_l_mid, !app_length in Hlen. lia.
+Qed.
+
+(* a non-text node keeps its data through add_node *)
+Lemma add_node_data fuel t p n t' nn : add_node fuel t p n = TOk t' -> heap_of t n = Some nn ->
+  is_text (n_data nn) = false -> exists nn', heap_of t' n = Some nn' /\ n_data nn' = n_data nn.
+Proof.
+  unfold add_node. intros H Hn Ht. rewrite (get_some _ _ _ Hn) in H. cbn [bind] in H.
+  destruct p as [p|].
+  - set (h1 := upd (heap_of t) n (Some (set_parent nn (Some p)))) in *.
+    destruct (get h1 p) as [pn| |] eqn:Ep; cbn [bind] in H; try discriminate.
+    destruct (n_children pn) as [c|].
+    + destruct (last_sibling fuel h1 c) as [tmp| |]; cbn [bind] in H; try discriminate.
+      destruct (get h1 tmp) as [tn| |] eqn:Et; cbn [bind] in H; try discriminate.
+      assert (E1 : get h1 n = TOk (set_parent nn (Some p))) by (unfold h1; apply get_upd_same).
+      rewrite E1 in H. cbn [bind] in H. unfold set_parent in H at 1. cbn [n_data] in H.
+      assert (K : exists tn2, get (upd h1 n (Some (set_prev (set_parent nn (Some p)) (Some tmp)))) tmp = TOk tn2 /\
+                  (tmp = n -> n_data tn2 = n_data nn)).
+      { destruct (N.eqb_spec tmp n) as [->|Hne].
+        - rewrite get_upd_same. eexists. split; [reflexivity|]. intros _. reflexivity.
+        - rewrite get_upd_other by exact Hne. rewrite Et. eexists. split; [reflexivity|]. intros; contradiction. }
+      destruct K as (tn2 & K1 & K2).
+      destruct (n_data nn) eqn:Ed; try discriminate; rewrite K1 in H; cbn [bind] in H; injection H as <-; cbn [heap_of with_heap];
+        (destruct (N.eqb_spec tmp n) as [->|Hne];
+         [rewrite upd_same; eexists; split; [reflexivity|]; unfold set_next; cbn [n_data]; exact (K2 eq_refl)
+         |rewrite upd_other by congruence; rewrite upd_same; eexists; split; [reflexivity|];
+          unfold set_prev, set_parent; cbn [n_data]; exact Ed]).
+    + injection H as <-. cbn [heap_of with_heap]. destruct (N.eqb_spec p n) as [->|Hne].
+      * rewrite upd_same. eexists. split; [reflexivity|]. unfold set_children. cbn [n_data].
+        unfold h1 in Ep. rewrite get_upd_same in Ep. injection Ep as <-. reflexivity.
+      * rewrite upd_other by congruence. unfold h1. rewrite upd_same. eexists. split; reflexivity.
+  - destruct (root t); [discriminate|]. injection H as <-. cbn [heap_of]. rewrite upd_same. eexists. split; reflexivity.
+Qed.
+
+Lemma inv_fresh_free t det F : Inv t det F -> heap_of t (fresh t) = None.
+Proof.
+  intros ((_ & _ & HC & _) & _ & Hb). destruct (heap_of t (fresh t)) eqn:E; [|reflexivity].
+  exfalso. assert (H : fresh t < fresh t) by (apply Hb, HC; rewrite E; discriminate). lia.
+Qed.
+
+Lemma parent_ok_some h q : parent_ok h (Some q) = true -> exists pn, h q = Some pn /\ is_text (n_data pn) = false.
+Proof.
+  unfold parent_ok. destruct (h q) as [pn|]; [|discriminate]. intros H. exists pn. split; [reflexivity|].
+  destruct (is_text (n_data pn)); [discriminate | reflexivity].
+Qed.
+
+(* (A) the common tail of the wbxml_tree_add_* functions *)
+Lemma add_new_inv fuel t det F p d :
+  Inv t det F -> parent_ok (heap_of t) p = true -> (fuel_of t <= fuel)%nat ->
+  exists t' r F', add_new fuel t p d = TOk (t', r) /\ Inv t' det F' /\ fresh t' = fresh t + 1 /\
+     (forall n, r = Some n -> n = fresh t /\ In n (ids_l F') /\
+        (is_text d = false -> exists nn, heap_of t' n = Some nn /\ n_data nn = d)).
+Proof.
+  intros HI Hpar Hfuel. pose proof (inv_fresh_free _ _ _ HI) as Hfree. pose proof (inv_sizes _ _ _ HI) as [Hsz _].
+  destruct HI as (HL & Hroots & Hb).
+  set (n := fresh t). set (h := heap_of t) in *.
+  set (h1 := upd h n (Some (mkN d None None None None))).
+  set (t1 := mkT h1 (root t) (cur_page t) (n + 1)).
+  assert (HL1 : Links h1 (F ++ [R n d []])) by (apply alloc_forest; assumption).
+  assert (Hb1 : forall i, In i (ids_l (F ++ [R n d []])) -> i < n + 1).
+  { intros i. rewrite ids_l_app, ids_l_single. intros Hi. apply in_app_or in Hi as [Hi|[<-|[]]]; [specialize (Hb i Hi)|]; unfold n; lia. }
+  unfold add_new, alloc. fold n h h1 t1.
+  destruct p as [q|].
+  - (* below a parent *)
+    destruct (parent_ok_some _ _ Hpar) as (pn & Hq & Hqt).
+    assert (Hqin : In q (ids_l F)) by (destruct HL as (_ & _ & HC & _); apply HC; fold h; rewrite Hq; discriminate).
+    destruct (links_lookup _ _ _ HL Hqin) as (sub & par & prev & nxt & Hfind & Hrid & Hqr).
+    fold h in Hqr. rewrite Hq in Hqr. injection Hqr as Hqr.
+    assert (Hfind' : find_l q (F ++ []) = Some sub) by (rewrite app_nil_r; exact Hfind).
+    destruct (add_node_forest fuel t1 F (R n d []) [] q sub HL1 Hfind') as (h' & Hrun & HL' & Hincl & Hhas).
+    { rewrite Hqr in Hqt. exact Hqt. }
+    { specialize (Hsz q sub Hfind). destruct sub as [i ds cs]. rewrite size_unfold in Hsz. cbn [rkids].
+      pose proof (length_le_size_l cs). unfold fuel_of in Hfuel. lia. }
+    cbn [rid] in Hrun. rewrite Hrun.
+    exists (with_heap t1 h'), (Some n), (replace_l q (R q (rdata sub) (snoc_merge (rkids sub) (R n d []))) (F ++ [])).
+    split; [reflexivity|]. split; [|split; [reflexivity|]].
+    + split; [exact HL'|]. split.
+      * rewrite map_rid_replace by reflexivity. rewrite app_nil_r. exact Hroots.
+      * intros i Hi. apply Hincl in Hi. apply Hb1. exact Hi.
+    + intros n' [= <-]. split; [reflexivity|]. split; [exact Hhas|]. intros Hd.
+      destruct (add_node_data fuel t1 (Some q) n _ (mkN d None None None None) Hrun) as (nn' & E1 & E2);
+        [unfold t1, h1; cbn [heap_of]; apply upd_same | exact Hd |].
+      exists nn'. split; [exact E1 | exact E2].
+  - (* as the root *)
+    unfold add_node. cbn [heap_of t1]. unfold h1 at 1. rewrite get_upd_same. cbn [bind root t1].
+    destruct (root t) as [r|] eqn:Er.
+    + exists (with_heap t1 (free_node (heap_of t1) n)), None, F. split; [reflexivity|]. split; [|split; [reflexivity | discriminate]].
+      split; [|split].
+      * eapply Links_ext; [|exact HL]. intros i. cbn [heap_of with_heap t1]. unfold free_node, h1, upd.
+        destruct (N.eqb_spec i n) as [->|_]; [symmetry; exact Hfree | reflexivity].
+      * unfold roots in *. unfold t1. cbn [root with_heap]. rewrite Er in Hroots. exact Hroots.
+      * intros i Hi. cbn [fresh with_heap t1]. specialize (Hb i Hi). fold n in Hb. lia.
+    + eexists _, (Some n), (R n d [] :: F). split; [reflexivity|]. split; [|split; [reflexivity|]].
+      * split; [|split].
+        -- cbn [heap_of]. apply Links_perm with (F := F ++ [R n d []]); [apply Permutation_sym, Permutation_cons_append|].
+           eapply Links_ext; [|exact HL1]. intros i. unfold upd. destruct (N.eqb_spec i n) as [->|_]; [|reflexivity].
+           unfold h1. rewrite upd_same. reflexivity.
+        -- unfold roots in *. cbn [root map rid]. rewrite Er in Hroots. rewrite Hroots. reflexivity.
+        -- intros i Hi. cbn [fresh]. apply Hb1. rewrite ids_l_app, ids_l_single. rewrite ids_l_cons in Hi.
+           apply in_or_app. apply in_app_or in Hi. tauto.
+      * intros n' [= <-]. split; [reflexivity|]. split; [rewrite ids_l_cons; apply in_or_app; left; simpl; auto|].
+        intros _. cbn [heap_of]. rewrite upd_same. eexists. split; reflexivity.
+Qed.
+
+(* (B) a node's data is replaced by data that is not text *)
+Lemma set_data_inv t det F n r d' :
+  Inv t det F -> heap_of t n = Some r -> is_text d' = false ->
+  exists F', Inv (with_heap t (upd (heap_of t) n (Some (set_data r d')))) det F'.
+Proof.
+  intros (HL & Hroots & Hb) Hn Hd.
+  assert (Hin : In n (ids_l F)) by (destruct HL as (_ & _ & HC & _); apply HC; rewrite Hn; discriminate).
+  destruct (links_lookup _ _ _ HL Hin) as (sub & par & prev & nxt & Hfind & Hrid & _).
+  exists (replace_l n (R n d' (rkids sub)) F). split; [|split].
+  - cbn [heap_of with_heap]. eapply set_data_forest; eauto.
+  - rewrite map_rid_replace by reflexivity. exact Hroots.
+  - intros i Hi. cbn [fresh with_heap]. apply Hb.
+    destruct HL as (_ & HN & _). destruct (proj2 (ids_replace_split n (R n d' (rkids sub))) _ _ Hfind HN) as (A & B & EA & EB & _).
+    rewrite EB in Hi. rewrite EA. destruct sub as [n' ds cs]. cbn [rid] in Hrid. subst n'. cbn [rkids] in *.
+    rewrite ids_unfold in *. exact Hi.
+Qed.
+
+Lemma Inv_cur_page t det F cp : Inv t det F -> Inv (mkT (heap_of t) (root t) cp (fresh t)) det F.
+Proof. intros H. exact H. Qed.
+
+Lemma CLinks_Inv c : CLinks c <-> exists F, Inv (ts c) (det c) F.
+Proof. unfold CLinks, Inv, roots, roots_of. split; intros (F & H); exists F; exact H. Qed.
+
+Lemma node_add_attrs_inv t det F n ats :
+  Inv t det F -> heap_of t n <> None ->
+  exists h' F', node_add_attrs (heap_of t) n ats = TOk h' /\ Inv (with_heap t h') det F' /\
+    (forall nn, heap_of t n = Some nn -> is_text (n_data nn) = false ->
+       exists nn', h' n = Some nn' /\ is_text (n_data nn') = false).
+Proof.
+  intros HI Hn. unfold node_add_attrs. destruct (heap_of t n) as [nn|] eqn:E; [|congruence].
+  rewrite (get_some _ _ _ E). cbn [bind]. destruct (n_data nn) as [tg old| | | |] eqn:Ed.
+  - destruct (set_data_inv t det F n nn (DElt tg (old ++ ats)) HI E eq_refl) as (F' & HI').
+    eexists _, F'. split; [reflexivity|]. split; [exact HI'|]. intros nn0 [= <-] _. rewrite upd_same. eexists. split; reflexivity.
+  - eexists _, F. split; [reflexivity|]. split; [destruct t; exact HI|]. intros nn0 [= <-] H. rewrite Ed in H. discriminate.
+  - eexists _, F. split; [reflexivity|]. split; [destruct t; exact HI|]. intros nn0 [= <-] H. exists nn. rewrite Ed. auto.
+  - eexists _, F. split; [reflexivity|]. split; [destruct t; exact HI|]. intros nn0 [= <-] H. exists nn. rewrite Ed. auto.
+  - eexists _, F. split; [reflexivity|]. split; [destruct t; exact HI|]. intros nn0 [= <-] H. exists nn. rewrite Ed. auto.
+Qed.
+
+Lemma with_heap_id t : with_heap t (heap_of t) = t.
+Proof. destruct t; reflexivity. Qed.
+
+(* every add function of the API: result state satisfies the invariant; the allocator moved by at most 2 *)
+Definition add_ok (t : tstate) (det : list id) (res : tres (tstate * option id)) : Prop :=
+  exists t' r F', res = TOk (t', r) /\ Inv t' det F' /\ (fuel_of t' <= S (S (fuel_of t)))%nat.
+
+Lemma fuel_of_succ t t' : fresh t' = fresh t + 1 -> fuel_of t' = S (fuel_of t).
+Proof. unfold fuel_of. intros ->. rewrite N.add_1_r, Nnat.N2Nat.inj_succ. reflexivity. Qed.
+
+Lemma add_elt_with_attrs_ok fuel t det F p tag ats :
+  Inv t det F -> parent_ok (heap_of t) p = true -> (fuel_of t <= fuel)%nat ->
+  add_ok t det (add_elt_with_attrs fuel t p tag ats).
+Proof.
+  intros HI Hp Hf. unfold add_elt_with_attrs, add_elt.
+  destruct (add_new_inv fuel t det F p (DElt tag []) HI Hp Hf) as (t1 & r & F1 & Hrun & HI1 & Hfr & Hr).
+  rewrite Hrun. cbn [bind]. destruct r as [n|].
+  - destruct (Hr n eq_refl) as (_ & _ & Hd). destruct (Hd eq_refl) as (nn & Hn & _).
+    destruct (node_add_attrs_inv t1 det F1 n ats HI1) as (h' & F' & Hrun' & HI' & Hk); [rewrite Hn; discriminate|].
+    rewrite Hrun'. cbn [bind]. exists (with_heap t1 h'), (Some n), F'. split; [reflexivity|]. split; [exact HI'|].
+    unfold fuel_of in *; cbn [fresh with_heap]; rewrite Hfr, N.add_1_r, Nnat.N2Nat.inj_succ; lia.
+  - exists t1, None, F1. split; [reflexivity|]. split; [exact HI1|]. rewrite (fuel_of_succ _ _ Hfr); lia.
+Qed.
+
+
+Lemma inv_alloc t det F n : Inv t det F -> In n (ids_l F) -> exists nn, heap_of t n = Some nn.
+Proof.
+  intros ((HF & _) & _) Hin. unfold ids_l in Hin. apply in_flat_map in Hin as (tr & Ht & Hin).
+  rewrite Forall_forall in HF. pose proof (rep_alloc _ _ _ _ _ _ (HF tr Ht) Hin) as H.
+  destruct (heap_of t n); [eauto | congruence].
+Qed.
+
+Lemma add_new_ok fuel t det F p d :
+  Inv t det F -> parent_ok (heap_of t) p = true -> (fuel_of t <= fuel)%nat ->
+  add_ok t det (add_new fuel t p d).
+Proof.
+  intros HI Hp Hf.
+  destruct (add_new_inv fuel t det F p d HI Hp Hf) as (t1 & r & F1 & Hrun & HI1 & Hfr & Hr).
+  exists t1, r, F1. split; [exact Hrun|]. split; [exact HI1|]. rewrite (fuel_of_succ _ _ Hfr); lia.
+Qed.
+
+Lemma parent_ok_of_data h n nn : h n = Some nn -> is_text (n_data nn) = false -> parent_ok h (Some n) = true.
+Proof. intros H1 H2. unfold parent_ok. rewrite H1, H2. reflexivity. Qed.
+
+
+Lemma add_xml_full_ok fuel l t det F p name kvs text :
+  Inv t det F -> parent_ok (heap_of t) p = true -> (S (fuel_of t) <= fuel)%nat ->
+  add_ok t det (add_xml_elt_with_attrs_and_text fuel l t p name kvs text).
+Proof.
+  intros HI Hp Hf. unfold add_xml_elt_with_attrs_and_text, add_xml_elt_with_attrs, add_xml_elt.
+  destruct (resolve_xml_elt l name) as [cp tag].
+  set (t0 := mkT (heap_of t) (root t) cp (fresh t)).
+  assert (HI0 : Inv t0 det F) by exact HI.
+  destruct (add_new_inv fuel t0 det F p (DElt tag []) HI0 Hp) as (t1 & r & F1 & Hrun & HI1 & Hfr & Hr);
+    [unfold fuel_of in *; cbn [fresh t0]; lia|].
+  rewrite Hrun. cbn [bind]. destruct r as [n|].
+  2:{ cbn [bind]. exists t1, None, F1. split; [reflexivity|]. split; [exact HI1|].
+      rewrite (fuel_of_succ t0 t1 Hfr); unfold fuel_of; cbn [fresh t0]; lia. }
+  destruct (Hr n eq_refl) as (_ & Hin & Hd). destruct (Hd eq_refl) as (nn & Hn & Hdn).
+  (* attributes *)
+  assert (K : exists t2 F2 nn2, (match kvs with
+                              | [] => TOk (t1, Some n)
+                              | _ :: _ => do h <- node_add_xml_attrs l (heap_of t1) n kvs; TOk (with_heap t1 h, Some n)
+                              end) = TOk (t2, Some n) /\ Inv t2 det F2 /\ fresh t2 = fresh t1 /\
+                             heap_of t2 n = Some nn2 /\ is_text (n_data nn2) = false).
+  { destruct kvs as [|kv kvs].
+    - exists t1, F1, nn. rewrite Hdn. auto.
+    - unfold node_add_xml_attrs.
+      destruct (node_add_attrs_inv t1 det F1 n (map (fun kv0 => resolve_xml_attr l (fst kv0) (snd kv0)) (kv :: kvs)) HI1)
+        as (h' & F' & Hrun' & HI' & Hk); [rewrite Hn; discriminate|].
+      rewrite Hrun'. cbn [bind]. destruct (Hk nn Hn) as (nn' & E1 & E2); [rewrite Hdn; reflexivity|].
+      exists (with_heap t1 h'), F', nn'. auto. }
+  destruct K as (t2 & F2 & nn2 & Hrun2 & HI2 & Hfr2 & Hn2 & Hd2). rewrite Hrun2. cbn [bind].
+  assert (Hfu2 : fuel_of t2 = S (fuel_of t)).
+  { unfold fuel_of. rewrite Hfr2, Hfr. cbn [fresh t0]. rewrite N.add_1_r, Nnat.N2Nat.inj_succ. reflexivity. }
+  destruct text as [|b text].
+  - exists t2, (Some n), F2. split; [reflexivity|]. split; [exact HI2|]. lia.
+  - unfold add_text.
+    destruct (add_new_inv fuel t2 det F2 (Some n) (DText (b :: text)) HI2 (parent_ok_of_data _ _ _ Hn2 Hd2)) as (t3 & r3 & F3 & Hrun3 & HI3 & Hfr3 & Hr3);
+      [lia|].
+    rewrite Hrun3. cbn [bind].
+    destruct r3 as [m|]; eexists t3, _, F3; (split; [reflexivity|]); (split; [exact HI3|]); rewrite (fuel_of_succ _ _ Hfr3); lia.
+Qed.
+
+Lemma add_tree_ok fuel t det F p lang :
+  Inv t det F -> parent_ok (heap_of t) p = true -> (fuel_of t <= fuel)%nat ->
+  add_ok t det (add_tree fuel t p lang).
+Proof.
+  intros HI Hp Hf. unfold add_tree.
+  destruct (add_new_inv fuel t det F p (DTree 0) HI Hp Hf) as (t1 & r & F1 & Hrun & HI1 & Hfr & Hr).
+  rewrite Hrun. cbn [bind]. destruct r as [n|].
+  - destruct (Hr n eq_refl) as (_ & _ & Hd). destruct (Hd eq_refl) as (nn & Hn & _).
+    rewrite (get_some _ _ _ Hn). cbn [bind].
+    destruct (set_data_inv t1 det F1 n nn (DTree lang) HI1 Hn eq_refl) as (F' & HI').
+    eexists _, (Some n), F'. split; [reflexivity|]. split; [exact HI'|].
+    unfold fuel_of in *. cbn [fresh with_heap]. rewrite Hfr, N.add_1_r, Nnat.N2Nat.inj_succ. lia.
+  - exists t1, None, F1. split; [reflexivity|]. split; [exact HI1|]. rewrite (fuel_of_succ _ _ Hfr). lia.
+Qed.
+
+Lemma roots_remove t det F1 tn F2 :
+  map rid (F1 ++ tn :: F2) = roots t det -> NoDup (ids_l (F1 ++ tn :: F2)) -> In (rid tn) det ->
+  map rid (F1 ++ F2) = roots t (remove_id (rid tn) det).
+Proof.
+  intros Hr Hnd Hin. apply nodup_rids in Hnd. rewrite map_app in *. cbn [map] in *.
+  pose proof (remove_id_mid _ _ _ Hnd) as E. rewrite Hr in E, Hnd. unfold roots in *.
+  set (rl := match root t with Some r => [r] | None => [] end) in *.
+  assert (Hn : ~ In (rid tn) rl) by (apply NoDup_app_iff in Hnd as (_ & _ & H3); intros H; exact (H3 _ H Hin)).
+  rewrite <- E.
+  assert (E2 : remove_id (rid tn) (rl ++ det) = remove_id (rid tn) rl ++ remove_id (rid tn) det) by (unfold remove_id; apply filter_app).
+  rewrite E2, (remove_id_notin _ _ Hn). reflexivity.
+Qed.
+
+Lemma det_in_roots t det n : In n det -> In n (roots t det).
+Proof. intros H. unfold roots. apply in_or_app. auto. Qed.
+
+Lemma extract_root_inv t det F n : Inv t det F -> root t = Some n ->
+  exists t' F', extract_node t n = TOk t' /\ Inv t' (det ++ [n]) F'.
+Proof.
+  intros (HL & Hroots & Hb) Hroot. unfold roots in Hroots. rewrite Hroot in Hroots. cbn [app] in Hroots.
+  destruct F as [|tr Fd]; [discriminate|]. cbn [map] in Hroots. injection Hroots as Hrid Hdet.
+  destruct HL as (HF & HN & HC & HLf). pose proof HF as HF0. apply Forall_cons_iff in HF as [Htr HFd].
+  destruct tr as [n' d cs]. cbn [rid] in Hrid. subst n'. apply rep_t_unfold in Htr as [Hn Hcs].
+  unfold extract_node. rewrite (get_some _ _ _ Hn). rec_simpl. rewrite (get_some _ _ _ Hn). rec_simpl.
+  rewrite (get_some _ _ _ Hn). rec_simpl. rewrite (get_some _ _ _ Hn). rec_simpl.
+  eexists _, (Fd ++ [R n d cs]). split; [reflexivity|]. split; [|split].
+  - cbn [heap_of]. apply Links_perm with (F := R n d cs :: Fd); [apply Permutation_cons_append|].
+    eapply Links_ext; [|exact (conj HF0 (conj HN (conj HC HLf)))].
+    intros i. unfold upd. destruct (N.eqb_spec i n) as [->|_]; [rewrite Hn; reflexivity | reflexivity].
+  - unfold roots. cbn [root]. rewrite map_app, Hdet. reflexivity.
+  - intros i Hi. cbn [fresh]. apply Hb. rewrite ids_l_app, ids_l_single in Hi. rewrite ids_l_cons.
+    apply in_or_app. apply in_app_or in Hi. tauto.
+Qed.
+
+Theorem exec_links l c o : CLinks c -> exists c' b, exec l c o = TOk (c', b) /\ CLinks c'.
+Proof.
+  intros HC. pose proof HC as HC0. destruct c as [t det]. apply CLinks_Inv in HC as (F & HI).
+  change (Inv t det F) in HI.
+  assert (Hadd : forall res, add_ok t det res -> exists c' b, lift_add (mkC t det) res = TOk (c', b) /\ CLinks c').
+  { intros res (t' & r & F' & -> & HI' & _). unfold lift_add. cbn [bind TreeGraph.det].
+    destruct r; eexists _, _; (split; [reflexivity|]); apply CLinks_Inv; exists F'; exact HI'. }
+  assert (Hsame : exists c' b, TOk (mkC t det, false) = TOk (c', b) /\ CLinks c') by (eexists _, _; split; [reflexivity | exact HC0]).
+  destruct o as [p tag ats | p name kvs text | p text | p | p lang | n k v | n | p n | n]; cbn [exec ts TreeGraph.det].
+  - destruct (parent_ok (heap_of t) p) eqn:Hp; [|exact Hsame]. apply Hadd. eapply add_elt_with_attrs_ok; eauto.
+  - destruct (parent_ok (heap_of t) p) eqn:Hp; [|exact Hsame]. apply Hadd. eapply add_xml_full_ok; eauto.
+  - destruct (parent_ok (heap_of t) p) eqn:Hp; [|exact Hsame]. apply Hadd. unfold add_text. eapply add_new_ok; eauto.
+  - destruct (parent_ok (heap_of t) p) eqn:Hp; [|exact Hsame]. apply Hadd. unfold add_cdata. eapply add_new_ok; eauto.
+  - destruct (parent_ok (heap_of t) p) eqn:Hp; [|exact Hsame]. apply Hadd. eapply add_tree_ok; eauto.
+  - (* attribute added to an element *)
+    destruct (heap_of t n) as [nn|] eqn:Hn; [|exact Hsame]. destruct (n_data nn) eqn:Hd; try exact Hsame.
+    unfold node_add_xml_attrs.
+    destruct (node_add_attrs_inv t det F n (map (fun kv => resolve_xml_attr l (fst kv) (snd kv)) [(k, v)]) HI) as (h' & F' & Hrun & HI' & _);
+      [rewrite Hn; discriminate|].
+    rewrite Hrun. cbn [bind]. eexists _, _. split; [reflexivity|]. apply CLinks_Inv. exists F'. exact HI'.
+  - (* extraction *)
+    destruct (heap_of t n) as [nn|] eqn:Hn; [|exact Hsame]. destruct (mem n det) eqn:Hm; [exact Hsame|].
+    apply mem_false in Hm. destruct HI as (HL & Hroots & Hb).
+    assert (Hin : In n (ids_l F)) by (destruct HL as (_ & _ & HCv & _); apply HCv; rewrite Hn; discriminate).
+    destruct (in_dec N.eq_dec n (map rid F)) as [Hr|Hr].
+    + (* the root *)
+      rewrite Hroots in Hr. unfold roots in Hr. apply in_app_or in Hr as [Hr|Hr]; [|contradiction].
+      destruct (root t) as [r|] eqn:Er; [|simpl in Hr; contradiction]. simpl in Hr. destruct Hr as [->|Hr]; [|contradiction].
+      destruct (extract_root_inv t det F n (conj HL (conj Hroots Hb)) Er) as (t' & F' & Hrun & HI').
+      rewrite Hrun. cbn [bind]. eexists _, _. split; [reflexivity|]. apply CLinks_Inv. exists F'. exact HI'.
+    + destruct (extract_forest t F n HL Hin Hr) as (h' & q & dq & ls & tx & rs & Hrun & Hfind & Hrid & HL' & Hincl).
+      rewrite Hrun. cbn [bind]. eexists _, _. split; [reflexivity|]. apply CLinks_Inv.
+      exists (replace_l q (R q dq (ls ++ rs)) F ++ [tx]). cbn [ts TreeGraph.det]. split; [exact HL'|]. split.
+      * rewrite map_app, map_rid_replace by reflexivity. cbn [map]. rewrite Hrid, Hroots. unfold roots. cbn [root].
+        rewrite app_assoc. reflexivity.
+      * intros i Hi. cbn [fresh]. apply Hb, Hincl, Hi.
+  - (* re-insertion of a detached sub-tree *)
+    destruct (mem n det) eqn:Hm; cbn [andb]; [|exact Hsame]. destruct (parent_ok (heap_of t) p) eqn:Hp; cbn [andb]; [|exact Hsame].
+    match goal with |- context [negb ?b] => destruct b eqn:Hsub end; cbn [negb]; [exact Hsame|].
+    apply mem_in in Hm. pose proof (inv_sizes _ _ _ HI) as [Hsz1 Hsz2]. destruct HI as (HL & Hroots & Hb).
+    destruct (split_by_rid F n) as (F1 & tn & F2 & -> & Hrid); [rewrite Hroots; apply det_in_roots; exact Hm|]. subst n.
+    pose proof HL as (HF & HN & HCv & HLf).
+    apply Forall_app in HF as [HF1 HF2]. apply Forall_cons_iff in HF2 as [Htn HF2].
+    destruct p as [q|].
+    + destruct (parent_ok_some _ _ Hp) as (pn & Hq & Hqt).
+      assert (Habs : abs_list (S (fuel_of t)) (heap_of t) (Some (rid tn)) = [tn]).
+      { apply (abs_rep (heap_of t) (S (fuel_of t)) [tn] None None); [cbn [rep_l]; auto|].
+        specialize (Hsz2 tn (in_elt _ _ _)). unfold fuel_of, size_l. simpl. lia. }
+      rewrite Habs, ids_l_single in Hsub. apply mem_false in Hsub.
+      assert (Hqin : In q (ids_l (F1 ++ F2))).
+      { assert (H : In q (ids_l (F1 ++ tn :: F2))) by (apply HCv; rewrite Hq; discriminate).
+        rewrite ids_l_mid in H. rewrite ids_l_app. clear - H Hsub. in_norm. tauto. }
+      destruct (proj2 (find_in q) _ Hqin) as (sub & Hfind).
+      assert (HF12 : Forall (rep_t (heap_of t) None None None) (F1 ++ F2)) by (apply Forall_app; auto).
+      destruct (find_rep_forest _ _ _ _ HF12 Hfind) as (par & prev & nxt & Hsubr).
+      destruct (proj2 (find_some q) _ _ Hfind) as (Hsr & _ & Hsubin).
+      destruct sub as [q' ds cs]. cbn [rid] in Hsr. subst q'. apply rep_t_unfold in Hsubr as [Hq' _].
+      rewrite Hq in Hq'. injection Hq' as ->. cbn [n_data] in Hqt.
+      rewrite ids_l_mid in HN. destruct (nodup_mid _ _ _ HN) as (N12 & _ & _). rewrite <- ids_l_app in N12.
+      destruct (add_node_forest (S (fuel_of t)) t F1 tn F2 q (R q ds cs) HL Hfind Hqt) as (h' & Hrun & HL' & Hincl & _).
+      { destruct (proj2 (ids_replace_split q (R q ds cs)) _ _ Hfind N12) as (A & B & EA & _ & _).
+        assert (Hlen : (length (ids_l (F1 ++ F2)) <= N.to_nat (fresh t))%nat).
+        { apply bounded_nodup_length; [exact N12|]. intros i Hi. apply Hb. rewrite ids_l_mid. rewrite ids_l_app in Hi.
+          clear - Hi. in_norm. tauto. }
+        rewrite EA, !app_length, ids_unfold in Hlen. cbn [length rkids] in *. rewrite <- (proj2 size_ids) in Hlen.
+        pose proof (length_le_size_l cs). unfold fuel_of. lia. }
+      rewrite Hrun. eexists _, _. split; [reflexivity|]. apply CLinks_Inv. eexists. cbn [ts TreeGraph.det].
+      split; [exact HL'|]. split.
+      * rewrite map_rid_replace by reflexivity. cbn [root with_heap].
+        rewrite <- ids_l_mid in HN. exact (roots_remove t det F1 tn F2 Hroots HN Hm).
+      * intros i Hi. cbn [fresh with_heap]. apply Hb, Hincl, Hi.
+    + (* as the root *)
+      destruct tn as [n d cs]. cbn [rid] in *. apply rep_t_unfold in Htn as [Hn Hcs].
+      unfold add_node. rewrite (get_some _ _ _ Hn). cbn [bind].
+      destruct (root t) as [r|] eqn:Er; [exact Hsame|].
+      eexists _, _. split; [reflexivity|]. apply CLinks_Inv. exists (R n d cs :: F1 ++ F2). cbn [ts TreeGraph.det].
+      split; [|split].
+      * cbn [heap_of]. apply Links_perm with (F := F1 ++ R n d cs :: F2); [apply Permutation_sym, Permutation_middle|].
+        eapply Links_ext; [|exact HL]. intros i. unfold upd. destruct (N.eqb_spec i n) as [->|_]; [|reflexivity].
+        rewrite Hn. reflexivity.
+      * pose proof (roots_remove t det F1 (R n d cs) F2 Hroots HN Hm) as E. unfold roots in *. cbn [root map rid] in *.
+        rewrite Er in E. cbn [app] in E. rewrite E. reflexivity.
+      * intros i Hi. cbn [fresh]. apply Hb. rewrite ids_l_mid. rewrite ids_l_cons, ids_l_app in Hi. clear - Hi. in_norm. tauto.
+  - (* destruction of a detached sub-tree *)
+    destruct (mem n det) eqn:Hm; [|exact Hsame]. apply mem_in in Hm.
+    pose proof (inv_sizes _ _ _ HI) as [_ Hsz2]. destruct HI as (HL & Hroots & Hb).
+    destruct (split_by_rid F n) as (F1 & tn & F2 & -> & Hrid); [rewrite Hroots; apply det_in_roots; exact Hm|]. subst n.
+    destruct (destroy_forest (2 * S (fuel_of t) + 2) (heap_of t) F1 tn F2 HL) as (h' & Hrun & HL' & E).
+    { specialize (Hsz2 tn (in_elt _ _ _)). unfold fuel_of. lia. }
+    rewrite Hrun. cbn [bind fst]. eexists _, _. split; [reflexivity|]. apply CLinks_Inv. exists (F1 ++ F2). cbn [ts TreeGraph.det].
+    split; [exact HL'|]. split.
+    + cbn [root with_heap]. destruct HL as (_ & HN & _). exact (roots_remove t det F1 tn F2 Hroots HN Hm).
+    + intros i Hi. cbn [fresh with_heap]. apply Hb. rewrite ids_l_mid. rewrite ids_l_app in Hi. clear - Hi. in_norm. tauto.
 Qed.
